@@ -93,7 +93,10 @@ pub fn run(ctx: &Ctx) {
         let rounds = want.min((budget / ops).max(8));
         MtCase { threads, rounds }
     });
-    ctx.run_prop_opts("global-mt", ctx.cases(12, 120), 24, strat, |c| match check_mt(c) {
+    // the debug-assertion build of the allocator re-checks its whole state on every call: a thorough case there
+    // costs the better part of a minute, so that profile gets fewer of them
+    let thorough_cases = if cfg!(debug_assertions) { 30 } else { 120 };
+    ctx.run_prop_opts("global-mt", ctx.cases(12, thorough_cases), 24, strat, |c| match check_mt(c) {
         Err(f) if f.sig == "harness|galloc-timeout" => {
             ctx.inconclusive();
             Ok(CaseReport::new())
